@@ -174,3 +174,18 @@ inline void writeSigs(const std::string& path, const std::unordered_set<uint64_t
 
 
 }
+
+// ---------------------------------------------------------------------------
+// handler of the repository's FFSM2_VERIF hook (builds with -DFFSM2_VERIF only): the library reports an index that
+// lies outside one of its fixed-size containers - an access inside the enclosing object, which no red-zone tool sees
+#ifdef FFSM2_VERIF
+extern "C" void ffsm2VerifOutOfBounds(const char* where, unsigned long index, unsigned long bound) noexcept {
+	static vh::Reporter rep;
+	static unsigned long total = 0;
+	++total;
+	char key[160], msg[256];
+	snprintf(key, sizeof key, "index-outside-container|%s|bound=%lu", where, bound);
+	snprintf(msg, sizeof msg, "%s was handed index %lu, the container holds %lu elements (report #%lu of this process)", where, index, bound, total);
+	rep.report("C18", key, msg);
+}
+#endif
